@@ -752,7 +752,24 @@ let make_m1 (params : string list) : machine =
                  let i = int_of_z i in
                  if empty_at (i - 1) || empty_at i then Some "C03-empty-value" else None
              | _ -> None)
-        | _ -> classify_m1 !prev toks model impl);
+        | _ ->
+            (* C07-unloaded-object-stale-index: a tree object on which no load has succeeded
+               serves reads through an index whose label nobody has compared with the latest
+               version. Recognised exactly: the object is unloaded, the index is enabled, and the
+               implementation answers what the faithful index model (FastLife.fstep) computes
+               in that state (FastLifeFacts.openat_failed_refuted) *)
+            let unloaded = (int_of_z !fs.ms.version = 0 && !fs.ms.forest <> [] && not !fs.skipf) in
+            let tv t = z_of_string (String.sub t 1 (String.length t - 1)) in
+            let via_index =
+              (if not unloaded then None
+               else match toks with
+                 | [ "r"; t; "get"; k ] when t <> "w" -> Some (FGetImm (tv t, bytes_of_tok k))
+                 | [ "getv"; k; v ] -> Some (FGetVersioned (bytes_of_tok k, z_of_string v))
+                 | [ "r"; t; "iter"; "-"; "-"; "0"; "1" ] when t <> "w" -> Some (FIterImm (tv t))
+                 | _ -> None) in
+            (match via_index with
+             | Some o when show_out (snd (fstep_sha !fs o)) = impl -> Some "C07-unloaded-object-stale-index"
+             | _ -> classify_m1 !prev toks model impl));
     dump = (fun () -> encode_db !st) }
 
 (* ---------- machine kv: the storage backends (C18) ---------- *)
